@@ -106,6 +106,62 @@ def shape_auto_neg(rng):
     return p, seqs
 
 
+def shape_supertraits(rng):
+    """raw-text programs with implied bounds: traits with supertraits / where clauses (some of them
+    without any impl, so that they are reached only through hypotheses), a struct with a where clause;
+    goals whose hypotheses mention such traits and whose conclusion needs their where clauses"""
+    n = rng.randint(3, 5)
+    sup = {i: sorted(rng.sample(range(i), rng.choice([0, 1, 1, 2]) if i >= 2 else min(i, rng.choice([0, 1])))) for i in range(n)}
+    if not any(sup.values()):
+        sup[n - 1] = [0]
+    items = ["struct S0 { }", "struct S1 { }", "struct W<T> { }"]
+    for i in range(n):
+        wc = (" where " + ", ".join("Self: T%d" % j for j in sup[i])) if sup[i] else ""
+        items.append("trait T%d%s { }" % (i, wc))
+    conv = rng.random() < 0.6
+    if conv:
+        a, b = rng.randrange(n), rng.randrange(n)
+        items.append("trait Conv<P> where Self: T%d, P: T%d { }" % (a, b))
+    ordt = rng.randrange(n)
+    items.append("struct Ord<T> where T: T%d { }" % ordt)
+    with_impls = [i for i in range(n) if rng.random() < 0.6]
+    for i in with_impls:
+        items.append("impl T%d for S%d { }" % (i, rng.randrange(2)))
+        if rng.random() < 0.5:
+            items.append("impl<T> T%d for W<T> where T: T%d { }" % (i, rng.randrange(n)))
+    rng.shuffle(items)
+
+    def up(i):
+        seen, todo = set(), [i]
+        while todo:
+            x = todo.pop()
+            for j in sup[x]:
+                if j not in seen:
+                    seen.add(j)
+                    todo.append(j)
+        return sorted(seen)
+    goals = []
+    for _ in range(8):
+        i = rng.randrange(n)
+        js = up(i)
+        j = rng.choice(js) if js and rng.random() < 0.7 else rng.randrange(n)
+        r = rng.random()
+        if r < 0.4:
+            goals.append("forall<T> { if (T: T%d) { T: T%d } }" % (i, j))
+        elif r < 0.55:
+            goals.append("if (S%d: T%d) { S%d: T%d }" % (rng.randrange(2), i, rng.randrange(2), j))
+        elif r < 0.7:
+            goals.append("forall<T> { if (T: T%d) { W<T>: T%d } }" % (i, j))
+        elif r < 0.8 and conv:
+            goals.append(rng.choice(["forall<T> { if (T: Conv<S0>) { T: T%d } }" % j, "forall<T, U> { if (T: Conv<U>) { U: T%d } }" % j]))
+        elif r < 0.9:
+            goals.append("forall<T> { if (FromEnv(Ord<T>)) { T: T%d } }" % j)
+        else:
+            goals.append(rng.choice(["S%d: T%d" % (rng.randrange(2), i), "exists<T> { T: T%d }" % i]))
+    goals = list(dict.fromkeys(goals))
+    return "\n".join(items), goals
+
+
 # ---------------------------------------------------------------------------------------
 # dump -> abstract program (C01/C05 fragment only)
 # ---------------------------------------------------------------------------------------
@@ -240,6 +296,16 @@ def build_cases(ctx, rng):
             sv = rng.choice([pg.SLG, pg.REC])
             mode = rng.choice(["History", "Fresh"])
             cases.append(Case("frag", p, text, goals, [pg.goal_text(g) for g in goals], sv, mode))
+    # the DESIGN-style witness: a trait that occurs only in the hypothesis and whose supertrait the conclusion needs
+    wit = "trait Parent { }\ntrait Child where Self: Parent { }\nstruct S { }\nimpl Parent for S { }"
+    for sv in (pg.SLG, pg.REC):
+        gs = ["forall<T> { if (T: Child) { T: Parent } }"]
+        cases.append(Case("wide", None, wit, gs, gs, sv, "Fresh"))
+    for _ in range(ctx.n(8, 80)):
+        text, goals = shape_supertraits(rng)
+        for _k in range(2):
+            gs = rng.sample(goals, min(len(goals), rng.choice([1, 2, 4])))
+            cases.append(Case("wide", None, text, gs, gs, rng.choice([pg.SLG, pg.REC]), rng.choice(["History", "Fresh"])))
     from checks import c07
     for _ in range(ctx.n(10, 120)):
         p = ag.gen_program(rng)
